@@ -15,6 +15,7 @@ VERIF = os.path.dirname(os.path.dirname(os.path.abspath(__file__)))
 REPO = os.environ.get("SPECTRA_VERIF_REPO", "/repo")
 EIGEN = "/usr/include/eigen3"
 BUILD_ROOT = os.path.join(VERIF, ".build")
+OUT_ROOT = os.environ.get("SPECTRA_VERIF_OUT", VERIF)   # evidence/ and replays/ (selftest / seeded runs redirect them)
 JOBS = int(os.environ.get("VERIF_JOBS", "16"))
 CASE_TIMEOUT = int(os.environ.get("VERIF_CASE_TIMEOUT", "180"))   # wall-clock watchdog, inconclusive only
 
@@ -462,7 +463,7 @@ def run_property(pid, tier, seed, only=None):
                 harness_fail.append("%s: only %d of %d cases closed" % (r.job["name"], r.cases, r.total))
     for h in hit.values():
         log("KNOWN-FINDING: property=%s %s %s (x%d)" % (pid, h["k"]["key"], h["k"]["what"], h["n"]))
-    rdir = os.path.join(VERIF, "replays", pid)
+    rdir = os.path.join(OUT_ROOT, "replays", pid)
     replay_paths = []
     if unknown:
         os.makedirs(rdir, exist_ok=True)
@@ -546,11 +547,11 @@ def write_evidence(pid, prop, tier, seed, results, unknown, hit, harness_fail, c
         cov["replay_of"] = only
     ev = dict(property_id=pid, tier=tier, seed=int(seed), level=prop["level"], coverage=cov, assumptions=prop.get("assumptions", []),
               wall_s=round(wall, 1), violations=len(unknown))
-    os.makedirs(os.path.join(VERIF, "evidence"), exist_ok=True)
-    tmp = os.path.join(VERIF, "evidence", pid + ".json.tmp")
+    os.makedirs(os.path.join(OUT_ROOT, "evidence"), exist_ok=True)
+    tmp = os.path.join(OUT_ROOT, "evidence", pid + ".json.tmp")
     with open(tmp, "w") as fh:
         json.dump(ev, fh, indent=1)
-    os.replace(tmp, os.path.join(VERIF, "evidence", pid + ".json"))
+    os.replace(tmp, os.path.join(OUT_ROOT, "evidence", pid + ".json"))
 
 
 def main():
